@@ -97,6 +97,68 @@ def run(ctx):
             nontriv += any(st['inv'] for sh in s_inv.values() for st in sh['stmts'])
         if len(samples) < 1 and len(g) < 10 and any(st['inv'] for sh in s_inv.values() for st in sh['stmts']):
             samples.append({"nt": to_nt(g), "shexc_with_inverse": r_inv[2]})
+    # ---------------- the typing statements in a file of their own (instances_file_input): a class whose instances are only ever objects
+    # in the graph has incoming features only - with inverse_paths its shape is there and equals the outgoing constraints of the
+    # reversed graph
+    import tempfile, os
+    stats["instances_file_triples"] = 0
+    tdir = tempfile.mkdtemp(prefix="verif_c14_")
+    try:
+        for i in range(40 if ctx.tier == "quick" else 600):
+            g = iri_only_graph(rng)
+            # a class of nodes that are never subjects
+            for k in range(rng.randint(1, 3)):
+                g.append((I('sink%d' % k), RDF_TYPE, I('Sink')))
+                # pointed to by nodes WITHOUT a class: the incoming constraint is a plain node kind, so no removed shape can take it along
+                g.append((I('usrc%d' % rng.randint(0, 2)), EX + 'into', I('sink%d' % k)))
+            g = list(dict.fromkeys(g))
+            typing = [t for t in g if t[1] == RDF_TYPE]
+            rest = [t for t in g if t[1] != RDF_TYPE]
+            if not typing or not rest:
+                continue
+            ipath = os.path.join(tdir, "inst%d.nt" % i)
+            open(ipath, "w").write(to_nt(typing))
+            cfg = gen.gen_cfg(rng, g, presentation=False, allow_cap=False, allow_ignore=False)
+            # empty shapes are kept: with removal a reference to a removed shape takes its constraint along (F-C02-2) and the two runs remove
+            # different shapes
+            cfg.update(report='mixed', disable_comments=False, inverse=True, inst_prop=RDF_TYPE, remove_empty=rng.random() < 0.7)
+            cfg.pop('inst_prop_spelled', None)
+            rrest = reverse_graph(rest, RDF_TYPE)
+            def run_files(tr, c, tag):
+                from shexer.shaper import Shaper
+                from shexer import consts as C
+                import impl, shex_text
+                gpath = os.path.join(tdir, "g%d_%s.nt" % (i, tag))
+                open(gpath, "w").write(to_nt(tr))
+                try:
+                    res, hang = impl.guarded(lambda: Shaper(graph_file_input=gpath, input_format=C.NT, instances_file_input=ipath, **impl.shaper_kwargs(c)).shex_graph(
+                        string_output=True, acceptance_threshold=c['th'][0] / c['th'][1]))
+                    if hang:
+                        return hang
+                    return ('ok', shex_text.parse(res), res)
+                except Exception as e:
+                    return ('exc', type(e).__name__, str(e)[:150])
+            rs = [run_files(rest, cfg, "a"), run_files(rrest, dict(cfg, inverse=False), "b")]
+            stats["instances_file_triples"] += 1
+            if rs[0][0] != 'ok' or rs[1][0] != 'ok':
+                viol.append({"what": "implementation gave no result with instances_file_input", "outcomes": [list(r[:3]) for r in rs], **pipeline.case_json(g, cfg)})
+                continue
+            s_inv = {sh['label']: sh for sh in rs[0][1]['shapes']}
+            s_rev = {sh['label']: sh for sh in rs[1][1]['shapes']}
+            for lab, sh in s_rev.items():
+                if not lab.endswith('/Sink'):
+                    continue      # the other classes may lose constraints with the shapes they refer to (F-C02-2); the sink class cannot
+                # predicate and count only: which of IRI / @shape is printed depends on which shapes the two runs remove as empty (F-C02-2)
+                rev_sts = sorted((st['prop'], st['n']) for st in sh['stmts'] if st['n'] is not None)
+                inv_sts = sorted((st['prop'], st['n']) for st in s_inv.get(lab, {'stmts': []})['stmts'] if st['inv'] and st['n'] is not None)
+                if rev_sts != inv_sts:
+                    viol.append({"what": "typing statements in a separate file: the incoming constraints of %s differ from the outgoing constraints of the "
+                                         "reversed graph (shape %s in the inverse run)" % (lab, "present" if lab in s_inv else "ABSENT"),
+                                 "incoming": repr(inv_sts)[:500], "reversed_outgoing": repr(rev_sts)[:500], "instances_file": to_nt(typing), **pipeline.case_json(rest, cfg)})
+                    break
+    finally:
+        import shutil
+        shutil.rmtree(tdir, ignore_errors=True)
     # ---------------- examples_mode must not touch the incoming constraints (links from nodes that are no instances included)
     stats["examples_pairs"] = 0
     ex_cases = []
